@@ -263,6 +263,9 @@ func (s *session) checkRetained() string {
 
 // RunCase drives the real server with one case over the in-memory transport.
 func RunCase(c *Case) *Result {
+	if d, ok := c.Extra["direct"]; ok {
+		return runDirect(c, d)
+	}
 	s := &session{log: &evlog{}, cx: c.CX}
 	srv, userMap, err := buildServer(c, s, nil)
 	if err != nil {
